@@ -17,6 +17,7 @@ type pendInv struct {
 
 // FnResult is the outcome of generating the VCs of one root function.
 type FnResult struct {
+	key       string
 	Rel       string
 	Enc       *Enc
 	Obs       []*Obligation
@@ -74,7 +75,7 @@ func contractProps(ct *Contract) map[string]bool {
 
 // genVCs builds the VC stream for the function under contract ct.
 func genVCs(w *World, db *ContractDB, ct *Contract) (res *FnResult) {
-	res = &FnResult{Rel: ct.Rel}
+	res = &FnResult{Rel: ct.Rel, key: ct.Key}
 	fn := ct.Fn
 	e := newEnc(w, db, ct.Rel)
 	res.Enc = e
@@ -159,8 +160,11 @@ func genVCs(w *World, db *ContractDB, ct *Contract) (res *FnResult) {
 		for _, en := range ct.Ensures {
 			t, err := penv.evalBool(en)
 			if err != nil {
-				res.Err = err.Error()
-				return
+				// the clause can no longer be evaluated on this code (e.g. atlock() without a Lock()):
+				// it is undischarged, not an engine failure
+				e.note("postcondition cannot be evaluated: " + err.Error())
+				e.addOb("post-unevaluable", en.Text, en.Tags, en.Src+" @return "+r.pos, r.cond, "false")
+				continue
 			}
 			_ = k
 			e.addOb("post", en.Text, en.Tags, en.Src+" @return "+r.pos, r.cond, t)
